@@ -10,7 +10,6 @@ fn nontrivial(t: &Trace) -> bool {
 pub fn prop() -> HistProp {
     let mut rc = RunCfg::new(&[Aspect::FatCopies, Aspect::Panic, Aspect::Budget]);
     rc.fatcopies = true;
-    rc.known.dst_inside_src = true;
     let mut gc = GenCfg::mixed();
     gc.gen_geom_pct = 65;
     gc.tiny_free_pct = 40;
